@@ -60,6 +60,34 @@ impl Gen {
 
 /// One run of `len` calls on storage `s`; `tombs` / `live` mirror what the recorder itself needs to
 /// stay inside the contract (remove_tombstones only on ids that are not live).
+/// One bulk write that is larger than a small backend can take (the LMDB backend's map holds 10 MiB): 400 documents of
+/// 32 KiB.  A backend may refuse it; then exactly the documents it reports as written are in place (the Storage
+/// contract for a failed bulk call), which the trace specification checks through the reads that follow.
+async fn oversized_put<S: Storage>(s: &S, g: &mut Gen, out: &mut Vec<Value>, live: &mut BTreeMap<String, BTreeSet<u64>>, touched: &mut BTreeSet<String>) {
+    let ks = "beta".to_string();
+    touched.insert(ks.clone());
+    let base: u64 = g.rng.gen_range(1_000_000..2_000_000);
+    let docs: Vec<Document> = (0..400u64).map(|i| {
+        let body: Vec<u8> = (0..32 * 1024).map(|j| (i as usize * 7 + j) as u8).collect();
+        Document::new(base + i, g.ts(), body)
+    }).collect();
+    let listed: Vec<Value> = docs.iter().map(|d| json!({"id": d.id().to_string(), "ts": d.last_updated().to_string(), "dig": digest(d.data())})).collect();
+    let ids: Vec<u64> = docs.iter().map(|d| d.id()).collect();
+    match s.multi_put(&ks, docs.into_iter()).await {
+        Ok(()) => {
+            out.push(json!({"ev": "put", "ks": ks, "docs": listed}));
+            live.entry(ks.clone()).or_default().extend(ids);
+        },
+        Err(e) => {
+            let done: Vec<u64> = e.successful_doc_ids().to_vec();
+            out.push(json!({"ev": "put_failed", "ks": ks, "docs": listed, "done": done.iter().map(|i| i.to_string()).collect::<Vec<_>>()}));
+            live.entry(ks.clone()).or_default().extend(done);
+        },
+    }
+    let entries: Vec<(u64, HLCTimestamp, bool)> = s.iter_metadata(&ks).await.expect("iter_metadata").collect();
+    out.push(json!({"ev": "meta", "ks": ks, "entries": entries.iter().map(|e| json!({"id": e.0.to_string(), "ts": e.1.to_string(), "tomb": e.2})).collect::<Vec<_>>()}));
+}
+
 async fn run_calls<S: Storage>(s: &S, g: &mut Gen, len: usize, out: &mut Vec<Value>, live: &mut BTreeMap<String, BTreeSet<u64>>, touched: &mut BTreeSet<String>) {
     let keyspaces = ["alpha", "beta", "gamma"];
     for _ in 0..len {
@@ -149,8 +177,22 @@ pub async fn record() {
             let mut live = BTreeMap::new();
             let mut touched = BTreeSet::new();
             match backend {
-                "memstore" => run_calls(&MemStore::default(), &mut g, len, &mut out, &mut live, &mut touched).await,
-                "sqlite-memory" => run_calls(&SqliteStorage::open_in_memory().await.unwrap(), &mut g, len, &mut out, &mut live, &mut touched).await,
+                "memstore" => {
+                    let s = MemStore::default();
+                    run_calls(&s, &mut g, len / 2, &mut out, &mut live, &mut touched).await;
+                    if run % 4 == 0 {
+                        oversized_put(&s, &mut g, &mut out, &mut live, &mut touched).await;
+                    }
+                    run_calls(&s, &mut g, len / 2, &mut out, &mut live, &mut touched).await;
+                },
+                "sqlite-memory" => {
+                    let s = SqliteStorage::open_in_memory().await.unwrap();
+                    run_calls(&s, &mut g, len / 2, &mut out, &mut live, &mut touched).await;
+                    if run % 4 == 0 {
+                        oversized_put(&s, &mut g, &mut out, &mut live, &mut touched).await;
+                    }
+                    run_calls(&s, &mut g, len / 2, &mut out, &mut live, &mut touched).await;
+                },
                 "sqlite-file" => {
                     let p = dir.join(format!("r{run}.db"));
                     let mut s = SqliteStorage::open(&p).await.unwrap();
@@ -169,6 +211,10 @@ pub async fn record() {
                     let mut s = LmdbStorage::open(&p).await.unwrap();
                     for i in 0..3 {
                         run_calls(&s, &mut g, len / 3, &mut out, &mut live, &mut touched).await;
+                        if i == 0 && run % 2 == 0 {
+                            // before a reopen, so that what a refused call left behind would survive it
+                            oversized_put(&s, &mut g, &mut out, &mut live, &mut touched).await;
+                        }
                         let env = s.handle().env().clone();
                         drop(s);
                         if i % 2 == 0 {
